@@ -367,7 +367,7 @@ RTCNoNesting(m) == m.opt.rtc => /\ Len(m.stack) <= 2
 Quiescent(m) == (m.alive /\ m.stack = <<>>) =>
                    /\ ~m.locked /\ ~m.raising
                    /\ \A i \in DOMAIN m.queue : m.queue[i].init
-                   /\ (m.queue # <<>> => m.async /\ m.cur = "")
+                   /\ (m.queue # <<>> => m.async)
 \* C10: exactly one state is active whenever the field holds a mapped value
 ExactlyOneActive(d, m) == IsState(d, m.cur) => Cardinality(ProjActive(d, m)) = 1
 \* C05: sync machines never run two callbacks at once; open callbacks belong to the top frame's phase
